@@ -212,6 +212,13 @@ def kwo_order_ok(sig, shape, exp):
     return [n for n in got if n in native] == native and [n for n in got if n in conv] == conv
 
 
+def safe_sig(obj):
+    try:
+        return inspect.signature(obj)
+    except Exception:  # noqa
+        return None
+
+
 _CALLS = {}
 
 
@@ -276,6 +283,34 @@ def eval_case(shape, form, sel, st, replaying=False):
                          {'form': form, 'placement': 'direct'})
             return
     st.inc('evaluations', n_calls)
+    # stacking must leave the inner decorated object as it was: decorate again, keep the inner one, stack, re-check it
+    if form in ('kwo>poso', 'poso>kwo') and sel[0] and sel[1]:
+        f2 = callsem.valued_func(shape, annotate=True, cache=False)
+        first, second = (M.kwoargs(*sel[0]), M.posoargs(*sel[1])) if form == 'kwo>poso' else (M.posoargs(*sel[1]), M.kwoargs(*sel[0]))
+        inner = first(f2)
+        inner_exp = expected_shape(shape, sel[0], ()) if form == 'kwo>poso' else expected_shape(shape, (), sel[1])
+        outer_obj = second(inner)
+        holder2 = type('H2', (object,), {'m': outer_obj})
+        try:
+            holder2().m         # binding the stacked object must not disturb the inner one either
+        except Exception:  # noqa: first parameter named in the selection
+            pass
+        if inner is not f2 and inner_exp is not None:
+            isig = safe_sig(inner)
+            if isig is None or not sig_matches(isig, inner_exp):
+                st.violation('stacking-changes-the-inner-decorated-object', case,
+                             dict(base, inner_advertised=str(isig), inner_expected=show(inner_exp)), {'form': form})
+                return
+            twin_i = callsem.valued_func(inner_exp)
+            for a, k in calls_for(shape):
+                if callsem.po_by_keyword(inner_exp, k):
+                    continue
+                want, got = callsem.run_call(twin_i, a, k), callsem.run_call(inner, a, k)
+                if not callsem.same_outcome(want, got):
+                    st.violation('stacking-changes-the-inner-decorated-object', case,
+                                 dict(base, inner_advertised=show(inner_exp), call=callsem.describe_call(a, k),
+                                      native_twin=repr(want)[:200], inner_object=repr(got)[:200]), {'form': form})
+                    return
     # bound method: only when the first parameter is a positional one the selection leaves alone
     first = shape[0] if shape else None
     if g is not f and first and first[1] in (PO, POK) and not first[2] and exp and exp[0][0] == first[0] and not _names_first(form, sel, first[0]):
